@@ -3,6 +3,7 @@ from .. import mon1, mon2
 from . import _w1case, _w2case
 
 ID = "C01"
+KNOWN_CEILING = {'k5_weight': 0.01}   # share of all evaluations a known finding may reach before it counts as a violation again
 LEVEL = "exploration"
 RULE = ("W1: seeded random trees (depth<=3, lazy/eager/shared tickers, sub-strategies) driven by random interleavings of "
         "adjust/allocate/rebalance/close/flatten/transact/update/read; identity read through the public properties after every operation "
